@@ -512,16 +512,24 @@ func c11One(env *fw.Env, cs c11Case) {
 		big := secs2.B(make([]byte, 2<<20))
 		_ = big.ToBytes()
 		bg.Add(1)
+		stopSends := make(chan struct{})
 		go func() {
 			defer bg.Done()
 			for n := 0; n < 200 && rg.Conn.State() == hsms.SelectedState; n++ {
+				select {
+				case <-stopSends: // the drop has been seen: nothing may be written into the NEXT generation from here
+					return
+				default:
+				}
 				ctx, cancel := context.WithTimeout(context.Background(), 50*time.Millisecond)
 				_, _ = rg.Conn.SendDataMessage(ctx, 1, 15, false, big)
 				cancel()
 				env.Event("short_deadline_sends_into_a_stalled_socket", 1)
 			}
 		}()
-		if !waitFor(30*time.Second, func() bool { return rg.Conn.State() != hsms.SelectedState }) {
+		dropped := waitFor(30*time.Second, func() bool { return rg.Conn.State() != hsms.SelectedState })
+		close(stopSends)
+		if !dropped {
 			fail("stall-not-dropped-write-timeout-short-ctx", "writes to a peer that never reads (write timeout 200 ms), each call with a 50 ms deadline, did not drop the link within 30 s: a write that ran into the write timeout after its caller's deadline left the dead link Selected")
 			return
 		}
